@@ -736,6 +736,17 @@ func SelectorRenderingLossless(p *core.Program, r *core.Report, rule string) {
 			}
 			return st
 		}
+		// default-then-override (`res := all; if sel.Size() != 0 { res = full(sel) }`): the abbreviated default was chosen
+		// before the test; on the implicit else arm of the test that overrides it, the arm's facts decide whether the
+		// default is lossless there
+		w.Refine = func(st int, f facts.Formula) int {
+			if st == stLossy {
+				if ok2, _ := pinnedBy(f); ok2 {
+					return stPinned
+				}
+			}
+			return st
+		}
 		w.OnExit = func(st int, ret *ast.ReturnStmt, f facts.Formula) {
 			if w.FuncLitDepth > 0 || ret == nil {
 				return
